@@ -73,10 +73,12 @@ type Op struct {
 	Off    uint64 `json:"off,omitempty"`
 	Count  uint32 `json:"count,omitempty"`
 	Seed   uint64 `json:"seed,omitempty"`
-	// Fault (readn and written only): "unlink", "rename" (the host file is
-	// removed / renamed) or "cut" (the transport is closed) exactly before the
-	// FaultAt-th Tread / Twrite frame of this call is written by the client.
-	// A fault that fires ends the case. See fault.go.
+	// Fault (any read or write helper): "unlink", "rename", "replace" (the host
+	// file is removed / renamed and renamed back after the call / replaced by a
+	// directory; replace for write helpers only) or "cut" (the transport is
+	// closed) exactly before the FaultAt-th Tread / Twrite frame of this call is
+	// written by the client. unlink, replace and cut end the case when they
+	// fire; after rename it goes on. See fault.go.
 	Fault   string `json:"fault,omitempty"`
 	FaultAt int    `json:"fault_at,omitempty"`
 }
@@ -280,6 +282,7 @@ type handle struct {
 	off    uint64
 	atOpen uint64 // length of the file when this fid was opened / created
 	wrote  bool   // this fid has itself extended the file since
+	chain  int    // data calls made through this handle so far
 }
 
 type held struct {
@@ -380,6 +383,7 @@ func grown(h *handle, kind string, off, n, l uint64) string {
 
 func (r *runner) classify(h *handle, kind string, off, n uint64, l uint64) {
 	hx.Eval() // one evaluation per checked operation
+	h.chain++
 	hx.Label(fmt.Sprintf("op=%s msize=%d", kind, r.nm))
 	g := grown(h, kind, off, n, l)
 	if g != "" {
@@ -678,6 +682,9 @@ func (r *runner) step(o *Op) error {
 		if !canRead(h.mode) {
 			break
 		}
+		if o.Fault != "" {
+			return r.faultStep(o, h)
+		}
 		r.classify(h, o.Kind, o.Off, cnt, l)
 		exp := want(m, o.Off, umin(cnt, r.u))
 		got, e := r.clnt.Read(h.f.Fid, o.Off, o.Count)
@@ -705,6 +712,9 @@ func (r *runner) step(o *Op) error {
 			off = h.off
 		} else if off >= 1<<63 {
 			break // not expressible as int64
+		}
+		if o.Fault != "" {
+			return r.faultStep(o, h)
 		}
 		r.classify(h, o.Kind, off, cnt, l)
 		exp := want(m, off, umin(cnt, r.u))
@@ -784,7 +794,7 @@ func (r *runner) step(o *Op) error {
 		if !canWrite(h.mode) {
 			break
 		}
-		if o.Fault != "" && o.Kind == "written" && o.Off < 1<<40 {
+		if o.Fault != "" {
 			return r.faultStep(o, h)
 		}
 		off := o.Off
